@@ -7,8 +7,13 @@ COMMON_TRUSTED = [
     "Go compiler/runtime and standard library behave as documented",
 ]
 
+NOT_APPLICABLE = {}
+
 PROPS = {
     "C18": dict(
+        level_text="Proof: the operator-table state machine (Op/validateOp/CurrentOp and the operators methods) is modelled in Lean; for ALL histories of op/3 calls with arbitrary argument terms the ISO invariant (C18_inv), atomicity of failed updates (C18_atomic), the exact effect of successful updates (C18_update_exact: latest wins, 0 removes, other classes kept) and exactness of current_op/3 (C18_current_op_exact) are kernel-checked theorems, the default table being regenerated from bootstrap.pl. The model is tied to the Go code by the c18.hist correspondence stream (impl vs model, plus an independent executable ISO specification as oracle, plus reader/writer probes).",
+        level_note="Trusted: Lean kernel; the hand-written model of Op/validateOp/CurrentOp (checked by differential runs, not proved); harness canonicalisation; reader/writer use of the table is only probed, not modelled. Pattern variables of current_op/3 assumed pairwise distinct.",
+        technique="Lean 4 invariant proof by induction over op/3 histories + regenerated default table + model/implementation correspondence",
         lean_module="PrologVerif.Properties.C18",
         ns="PrologVerif.C18",
         streams=[dict(name="c18.hist", quick=3000, thorough=40000)],
